@@ -26,6 +26,31 @@ CLAIMED = {
         note=COMMON_NOTE + "Assumes payload length < 2^64 and that bytes::BytesMut behaves as a byte sequence. The tie "
              "between model and code is differential (generator-bounded), not a proof about the Rust text.",
         design="§8 C03"),
+    "C06": dict(
+        engine="M2 Engine",
+        technique="Lean 4 inductive invariant over every reachable engine state for every peer byte stream and segmentation "
+                  "(PLAIN byte-exact, CURVE/NOISE as abstract mechanism); tie: translator (mechanism table, v2-refusal condition) + "
+                  "lock-step differential correspondence on the real ZmtpEngine with an attacker grammar + raw TCP attacker against a real PLAIN listener",
+        text="Proof over the engine model: for all read sequences from the initial state, HandshakeComplete implies a locally enabled, "
+             "non-NULL mechanism was negotiated and (PLAIN server) a HELLO with exactly the configured credentials was accepted, "
+             "(PLAIN client) a WELCOME was received, (CURVE/NOISE) the mechanism itself reported ready on exactly the accepted tokens; "
+             "no delivery precedes HandshakeComplete; a secured engine never becomes a ZMTP/2.0 session. 9 theorems. Partial with respect to "
+             "the full property: the cryptographic soundness of CURVE/Noise_XX (snow/dryoc, and rzmq's home-grown CURVE key schedule) is a "
+             "parameter of the theorems, not proved.",
+        note=COMMON_NOTE + "The engine model is hand-written; it is compared with the real engine on ~1.5k/40k attacker streams per run. "
+             "CURVE/NOISE mechanisms are abstract in the model (AbsSpec).",
+        design="§8 C06"),
+    "C19": dict(
+        engine="M2 Engine",
+        technique="Lean 4 theorems about the heartbeat state machine (time as Nat ms): exact ping condition, deadline arithmetic, "
+                  "traffic-keeps-alive, PONG echo; tie: translator + lock-step correspondence on scripted timelines of the real engine",
+        text="Proof over the engine model: a tick sends a PING iff data phase, v3, no PING outstanding and >= HEARTBEAT_IVL since last "
+             "activity (not early; not later than 2*ivl given ticks every ivl); no PONG/traffic within HEARTBEAT_TIMEOUT closes with a "
+             "timeout error and only then; any inbound frame clears the outstanding PING; every well-formed PING is answered by one PONG "
+             "with the same context; never on ZMTP/2.0 or before the data phase. 12 theorems. Partial: timer accuracy/tick frequency of "
+             "the Tokio actor, the io_uring backend's clock and PONG placement in the egress buffer are not part of these theorems.",
+        note=COMMON_NOTE + "Engine time is scripted via a cfg(rzmq_verif) accessor; the session actor's interval timer is assumed to tick at least every HEARTBEAT_IVL.",
+        design="§8 C19"),
 }
 
 NOT_YET = "check not built yet (work in progress; see DESIGN.md build order)"
